@@ -16,6 +16,12 @@ VARIABLES v
 vars == <<v>>
 
 Val(k, e) == [m |-> k, e |-> e]
+\* non-finite values (a Table column may hold them: rdf of an empty bin, error of a single sample):
+\* exponent code 99, m = 1: +inf, -1: -inf, 0: nan (compared as "is nan")
+PInf == Val(1, 99)
+NInf == Val(-1, 99)
+NaN  == Val(0, 99)
+Special(k) == IF k % 3 = 0 THEN PInf ELSE IF k % 3 = 1 THEN NInf ELSE NaN
 
 \* ---- payload ------------------------------------------------------------------
 H(p, i, j) == (((p * 7919 + i * 613 + j * 211) * 4099 + 1234) % 200003)
@@ -36,10 +42,18 @@ Flag(p, fp, i) == FlagSet[((i + fp + p) % 5) + 1]
 \* so nothing is demanded about it ("*")
 StoredFlag(f) == IF f \in {"i", "o", "u"} THEN f ELSE "*"
 
-TableVec(n, hasy, com, p, fp) ==
+\* What Save writes for a row and what Load must return (format as implemented, table.cc):
+\*   Save:  "x y"  or  "x y yerr" (table with error column), followed by " f" only when the flag
+\*          is not blank/NUL; numbers with 10 significant digits, non-finite ones as inf / -inf / nan.
+\*   Load:  the last token is the flag iff it IS one of the strings "i" "o" "u"; a third numeric
+\*          token is yerr.  So "x y inf" (blank flag, yerr = +inf) is a row with yerr = +inf and the
+\*          default flag, NOT a row with flag i.  x, y, yerr come back unchanged (nan as nan).
+\*   Not representable: a blank/NUL flag (read back as the default 'i': nothing demanded, "*").
+\* nf: 0 finite; 1 non-finite yerr; 2 non-finite y; 3 both (x stays finite)
+TableVec(n, hasy, com, p, fp, nf) ==
   LET x == [i \in 1..n |-> Num(p, i, 1, 10)]
-      y == [i \in 1..n |-> Num(p, i, 2, 10)]
-      e == [i \in 1..n |-> Num(p, i, 3, 10)]
+      y == [i \in 1..n |-> IF nf \in {2, 3} THEN Special(i + 1) ELSE Num(p, i, 2, 10)]
+      e == [i \in 1..n |-> IF nf \in {1, 3} THEN Special(i + 2) ELSE Num(p, i, 3, 10)]
       fl == [i \in 1..n |-> Flag(p, fp, i)]
   IN [kind |-> "table",
       inp |-> [n |-> n, hasyerr |-> hasy, comment |-> com, x |-> x, y |-> y, yerr |-> e, flags |-> fl],
@@ -91,7 +105,9 @@ IndexVec(bs1, bs2, two) ==
       exp |-> [k \in 1..Len(rs) |-> [name |-> rs[k].name, values |-> EnumBlocks(rs[k].blocks)]]]
 
 Vectors ==
-     { TableVec(n, hy, com, p, fp) : n \in TableN, hy \in BOOLEAN, com \in BOOLEAN, p \in Pids, fp \in 0..1 }
+     { TableVec(n, hy, com, p, fp, 0) : n \in TableN, hy \in BOOLEAN, com \in BOOLEAN, p \in Pids, fp \in 0..1 }
+  \* non-finite y / yerr with every flag (incl. blank and NUL) on every row
+  \cup { TableVec(n, hy, FALSE, p, fp, nf) : n \in TableN \ {0}, hy \in BOOLEAN, p \in {0}, fp \in 0..4, nf \in 1..3 }
   \cup UNION { { MatrixVec(r, c, p, sel) : sel \in Sels(r, c) } : r \in RowSet, c \in ColSet, p \in Pids }
   \cup UNION { { DsVec(n, p, sel) : sel \in ({<<>>} \cup IF n >= 3 THEN {<<1, 3>>} ELSE {}) } : n \in TableN \ {0}, p \in Pids }
   \cup { IndexVec(b1, b2, two) : b1 \in BlockSets, b2 \in BlockSets, two \in BOOLEAN }
@@ -121,6 +137,14 @@ RangesSorted ==
   v.kind = "index" => \A k \in 1..Len(v.inp) : \A b \in 1..Len(v.inp[k].blocks) :
       LET bl == v.inp[k].blocks[b]  en == Enum(bl[1], bl[2], bl[3]) IN
       /\ Len(en) >= 1 /\ en[1] = bl[1] /\ en[Len(en)] <= bl[2] /\ en[Len(en)] + bl[3] > bl[2]
+
+\* every (flag, special value) combination occurs in some row with an error column
+\* (evaluated once: the vector set is a constant)
+NonFiniteCovered ==
+  \A f \in {"i", "o", "u", "_", "0"} : \A sp \in {PInf, NInf, NaN} :
+     \E w \in Vectors : /\ w.kind = "table" /\ w.inp.hasyerr
+                         /\ \E i \in 1..w.inp.n : w.inp.flags[i] = f /\ w.inp.yerr[i] = sp
+ASSUME NonFiniteCovered
 
 Leaf == Emit => PrintT(ToJson(v))
 =============================================================================
